@@ -1,0 +1,69 @@
+//go:build verif
+
+package ps
+
+// Read-only wrappers around unexported functions, compiled only with the build tag "verif".
+// Nothing here changes behaviour of the package.
+
+import (
+	"io"
+
+	math "github.com/IBM/mathlib"
+)
+
+// VerifCurve returns the curve the secret-sharing code of the package computes on.
+func VerifCurve() *math.Curve { return c }
+
+func VerifLagrangeCoefficient(evaluatedAt int64, evaluationPoints ...int64) *math.Zr {
+	return lagrangeCoefficient(evaluatedAt, evaluationPoints...)
+}
+
+func VerifReconstruct(shares []*math.Zr, evaluationPoints ...int64) *math.Zr {
+	return Shares(shares).reconstruct(evaluationPoints...)
+}
+
+func VerifValueAt(polynomial []*math.Zr, x int) *math.Zr {
+	return Polynomial(polynomial).ValueAt(x)
+}
+
+func VerifGen(threshold, n int, rand io.Reader) ([]*math.Zr, []*math.Zr) {
+	p, s := (&SSS{Threshold: threshold}).Gen(n, rand)
+	return p, s
+}
+
+func VerifChooseKoutOfN(n, k int, f func([]int64)) { chooseKoutOfN(n, k, f) }
+
+func VerifLocalAggregateECPoints(points []*math.G2, evaluationPoints ...int64) *math.G2 {
+	return localAggregateECPoints(points, evaluationPoints...)
+}
+
+func VerifLocalAggregatePublicKeys(n int, pks []PK, evaluationPoints ...int64) PK {
+	return localAggregatePublicKeys(n, PKs(pks), evaluationPoints...)
+}
+
+// VerifG2 returns the G2 generator of the public parameters for the given message length.
+func VerifG2(messageLength int) *math.G2 {
+	pp := Setup(c, messageLength)
+	return pp.g2
+}
+
+// VerifAssembleThresholdPublicKey runs the cross-check of KeyGen (assembleThresholdPublicKey) on a fresh
+// instance whose parties are 'parties' and whose revealed public keys are rawPKs (same order).
+// It returns the serialized distinct threshold keys found and the serialized key KeyGen would store.
+func VerifAssembleThresholdPublicKey(parties []uint16, threshold int, messageLength int, rawPKs [][]byte) ([][]byte, []byte) {
+	tps := &TPS{Curve: c, MessageLength: messageLength, parties: parties, threshold: threshold,
+		publicKeysOfParties: make(map[uint16][]byte)}
+	tps.pp = Setup(c, messageLength)
+	for i, p := range parties {
+		tps.publicKeysOfParties[p] = rawPKs[i]
+	}
+	combos, tpk := tps.assembleThresholdPublicKey()
+	var distinct [][]byte
+	for _, k := range combos {
+		distinct = append(distinct, k.Bytes())
+	}
+	if tpk.X == nil {
+		return distinct, nil
+	}
+	return distinct, tpk.Bytes()
+}
